@@ -776,6 +776,8 @@ impl<B: AsRef<[AtomicUsize]>> AtomicBitVec<B> {
     unsafe fn get_unchecked(&self, index: usize, ordering: Ordering) -> bool {
         let word_index = index / BITS;
         let bits = self.bits.as_ref();
+        #[cfg(feature = "sux_verif")]
+        crate::verif::sched_point(20, bits.get_unchecked(word_index) as *const _ as *const u8);
         let word = bits.get_unchecked(word_index).load(ordering);
         (word >> (index % BITS)) & 1 != 0
     }
@@ -787,11 +789,19 @@ impl<B: AsRef<[AtomicUsize]>> AtomicBitVec<B> {
 
         // For constant values, this should be inlined with no test.
         if value {
+            #[cfg(feature = "sux_verif")]
+            crate::verif::sched_point(21, bits.get_unchecked(word_index) as *const _ as *const u8);
             bits.get_unchecked(word_index)
                 .fetch_or(1 << bit_index, ordering);
+            #[cfg(feature = "sux_verif")]
+            crate::verif::sched_point(0x115, bits.get_unchecked(word_index) as *const _ as *const u8);
         } else {
+            #[cfg(feature = "sux_verif")]
+            crate::verif::sched_point(22, bits.get_unchecked(word_index) as *const _ as *const u8);
             bits.get_unchecked(word_index)
                 .fetch_and(!(1 << bit_index), ordering);
+            #[cfg(feature = "sux_verif")]
+            crate::verif::sched_point(0x116, bits.get_unchecked(word_index) as *const _ as *const u8);
         }
     }
 
@@ -801,6 +811,8 @@ impl<B: AsRef<[AtomicUsize]>> AtomicBitVec<B> {
         let bit_index = index % BITS;
         let bits = self.bits.as_ref();
 
+        #[cfg(feature = "sux_verif")]
+        crate::verif::sched_point(23, bits.get_unchecked(word_index) as *const _ as *const u8);
         let old_word = if value {
             bits.get_unchecked(word_index)
                 .fetch_or(1 << bit_index, ordering)
@@ -808,6 +820,8 @@ impl<B: AsRef<[AtomicUsize]>> AtomicBitVec<B> {
             bits.get_unchecked(word_index)
                 .fetch_and(!(1 << bit_index), ordering)
         };
+        #[cfg(feature = "sux_verif")]
+        crate::verif::sched_point(0x117, bits.get_unchecked(word_index) as *const _ as *const u8);
 
         (old_word >> (bit_index)) & 1 != 0
     }
